@@ -50,7 +50,7 @@ EXTENDS Integers, Sequences, FiniteSets, TLC
 
 CONSTANTS Fault      \* "none" | "skip_fric" | "skip_gen" | "gate_next" | "save_on_err" | "step_first" | "con_early_return"
 
-VARIABLES kind,      \* "loco" | "consist" | "setspeed" | "slts" | "timed"
+VARIABLES kind,      \* "loco" | "consist" | "setspeed" | "slts" | "timed" | "vec"
           comp,      \* sequence of "conv" | "bel" | "hyb"
           nd, simi,
           av,        \* interval last requested at the top (0 = None)
@@ -99,6 +99,8 @@ Build(kd, cp, v) ==
   CASE kd = "loco"     -> Unit(1, cp[1], v)
     [] kd = "consist"  -> <<Node("con", 0, "", v)>> \o Units(cp, 1, v)
     [] kd = "setspeed" -> <<Node("train", 0, "", v), Node("con", 0, "", v)>> \o Units(cp, 1, v)
+    [] kd = "vec"      -> LET one == <<Node("train", 0, "", v), Node("fric", 0, "", v), Node("con", 0, "", v)>> \o Units(cp, 1, v)
+                          IN one \o one      \* SpeedLimitTrainSimVec of two simulations: set_save_interval at the vector reaches both
     [] OTHER           -> <<Node("train", 0, "", v), Node("fric", 0, "", v), Node("con", 0, "", v)>> \o Units(cp, 1, v)
 (* same objects, same order, any contents *)
 Shape(s) == [j \in Idx(s) |-> <<s[j].lvl, s[j].k, s[j].c>>]
